@@ -3,9 +3,11 @@
 # and compares the set of passing tests with /root/.vp/BASELINE.json stable_pass.
 set -u
 OUT=$(mktemp /tmp/verif-baseline-XXXXXX.json)
-cd /repo || exit 2
-GOFLAGS=-mod=mod GOPROXY=off GOSUMDB=off go test -mod=mod -json -vet=off -count=1 -timeout 25m ./... > "$OUT" 2>/dev/null
-python3 - "$OUT" <<'PY'
+# usage: baseline.sh [package pattern, default ./...]   (VERIF_REPO overrides /repo)
+PKG="${1:-./...}"
+cd "${VERIF_REPO:-/repo}" || exit 2
+GOFLAGS=-mod=mod GOPROXY=off GOSUMDB=off go test -mod=mod -json -vet=off -count=1 -timeout 25m $PKG > "$OUT" 2>/dev/null
+python3 - "$OUT" "$PKG" <<'PY'
 import json,sys
 passed=set()
 for l in open(sys.argv[1]):
@@ -14,8 +16,12 @@ for l in open(sys.argv[1]):
     if e.get('Action')=='pass' and e.get('Test'):
         passed.add(e['Package']+'::'+e['Test'])
 b=json.load(open('/root/.vp/BASELINE.json'))
-missing=[t for t in b['stable_pass'] if t not in passed]
-print(f"baseline: {len(passed)} passed, {len(b['stable_pass'])} expected, {len(missing)} missing")
+expected=b['stable_pass']
+if sys.argv[2] != './...':
+    pk='github.com/traefik/yaegi/'+sys.argv[2].lstrip('./')
+    expected=[t for t in expected if t.split('::')[0]==pk]
+missing=[t for t in expected if t not in passed]
+print(f"baseline: {len(passed)} passed, {len(expected)} expected, {len(missing)} missing")
 for m in missing[:40]: print("  MISSING", m)
 sys.exit(1 if missing else 0)
 PY
